@@ -568,9 +568,19 @@ pub mod watchdog {
                         let doc = serde_json::json!({"property": property, "signature": sig, "summary": summary, "scenario": scenario});
                         let _ = std::fs::write(&path, serde_json::to_string_pretty(&doc).unwrap());
                         // the run cannot be completed: evidence says so instead of inventing counts
+                        // the record keeps the level of the check and carries the keys that level
+                        // requires; what was covered before the abort is not known to this thread: 0
                         let ev = serde_json::json!({
-                            "property_id": property, "tier": tier, "seed": 0, "level": "other",
-                            "coverage": {"explanation": format!("run aborted by the watchdog: {summary}; replay {path}"), "exhaustive": false},
+                            "property_id": property, "tier": tier, "seed": 0, "level": crate::report::current_level(),
+                            "coverage": {
+                                "explanation": format!("run aborted by the watchdog: {summary}; replay {path}"),
+                                "exhaustive": false,
+                                "evaluations": 1, "distinct_nontrivial": 0,
+                                "rule": "run aborted by the watchdog before the counts were collected: one case did not return (see explanation)",
+                                "samples": [scenario],
+                                // the case that did not return: the state it was in, the step it was taking
+                                "states": 1, "transitions": 1, "traces_validated_against_impl": 0
+                            },
                             "wall_s": 0.0, "violations": 1
                         });
                         let _ = std::fs::write(format!("{}/evidence/{}.json", crate::report::VERIF_DIR, property), serde_json::to_string_pretty(&ev).unwrap());
